@@ -66,7 +66,7 @@ func startLoop() *fakeBackend {
 		cfg.Registry.Backend = "static"
 		cfg.Log.RoutesFormat = "delta"
 		first := make(chan bool)
-		go watchBackend(cfg, metrics.DiscardProvider{}, first)
+		go flex(watchBackend, cfg, metrics.Provider(metrics.DiscardProvider{}), first)
 	})
 	return loopBE
 }
